@@ -45,8 +45,9 @@ pub struct StatefulExecutor(StatefulExecutorRunnerGenerator);
 /// A dataset to differentiate between occurance of global and per-execution timeout
 #[derive(Debug, PartialEq, Eq, PartialOrd, Ord)]
 struct Timeout {
-    is_global: bool,
+    // the derived ordering is lexicographic in field order: the duration must decide
     timeout: Duration,
+    is_global: bool,
 }
 
 impl StatefulExecutor {
